@@ -266,10 +266,21 @@ class EMMetadataSet(Contract):
     lenient = True
 
     def cases(self):
-        return ["partner-cached", "partner-not-cached-yet"]
+        return ["partner-cached", "partner-not-cached-yet", "identifiers-as-text"]
 
     def setup(self, ctx):
         me = em_self(ctx)
+        if ctx.case == "identifiers-as-text":
+            import uuid
+
+            # a survey description as kept in a JSON document: identifiers are text, between plain-text entries
+            u1, u2 = uuid.UUID(int=11), uuid.UUID(int=12)
+            for a in ("receivers", "transmitters", "base_stations", "_receivers", "_transmitters", "_base_stations"):
+                me.attrs[a] = None
+            em = PDict({"Channels": PList([1.0]), "Input type": "Rx", "Receivers": str(u1), "Survey type": "Airborne TEM", "Transmitters": "{" + str(u2) + "}", "Unit": "Milliseconds (ms)"})
+            values = PDict({"EM Dataset": em})
+            ctx.env.update(values=values, em=em, ids={"Receivers": u1, "Transmitters": u2})
+            return [me, values], {}
         partner = Opaque("partner")
         me.distinct = partner.distinct = True
         ctx.path.assume(~partner.none_var())
@@ -286,6 +297,13 @@ class EMMetadataSet(Contract):
 
     def post(self, ctx, result):
         e = ctx.env
+        if ctx.case == "identifiers-as-text":
+            em = e["em"].items
+            for key, u in e["ids"].items():
+                ctx.oblige(f"identifier-text-{key}-is-stored-as-an-identifier", em.get(key) == u, note=f"{key} stays {em.get(key)!r}: the partner cannot be resolved from it")
+            for key, txt in (("Input type", "Rx"), ("Survey type", "Airborne TEM"), ("Unit", "Milliseconds (ms)")):
+                ctx.oblige(f"plain-text-{key.replace(' ', '-')}-is-kept", em.get(key) == txt)
+            return
         me, partner, values = e["me"], e["partner"], e["values"]
         ev = ctx.path.events
         persisted = [p["entity"] for k, p in ev if k == "persist" and p["group"] == "metadata"]
@@ -345,4 +363,79 @@ class ReceiversSet(_LinkSet):
     self_cls, partner_cls = "AirborneTEMTransmitters", "AirborneTEMReceivers"
 
 
-CONTRACTS = [LinkNative, EMMetadataSet, TransmittersSet, ReceiversSet]
+class CellCopyStub(Contract):
+    """summary of CellObject.copy used by the survey copy: a new entity of the same class (C12)."""
+    target = "geoh5py/objects/cell_object.py::CellObject.copy"
+    symbolic = False
+    props = ()
+
+    def apply(self, I, args, kwargs):
+        new = Opaque("new-entity", cls=getattr(args[0], "cls", None))
+        new.distinct = True
+        em = Opaque("new-entity.edit_em_metadata")
+        em.maybe_method = lambda I_, a, kw: I_.event("edit-copy", entries=a[0])
+        new.attrs["edit_em_metadata"] = em
+        I.event("super-copy", source=args[0], kwargs=dict(kwargs))
+        I.ctx.env["new"] = new
+        return new
+
+
+class EMCopy(Contract):
+    """Copying one side of a linked survey: the copy receives the shared survey parameters but none
+    of the original partner identifiers (receivers, transmitters, base stations); the partner is
+    copied as well and linked to the copy, not to the original."""
+    target = "geoh5py/objects/surveys/electromagnetics/base.py::BaseEMSurvey.copy"
+    props = ("C20",)
+    lenient = True
+    uses = (CellCopyStub,)
+
+    def cases(self):
+        return ["receivers-with-transmitters", "tipper-receivers-with-base-stations", "unlinked"]
+
+    def setup(self, ctx):
+        import uuid
+
+        me = em_self(ctx, "TipperReceivers" if ctx.case.startswith("tipper") else "AirborneTEMReceivers")
+        ids = {"Receivers": uuid.UUID(int=1)}
+        if ctx.case == "receivers-with-transmitters":
+            ids["Transmitters"] = uuid.UUID(int=2)
+        elif ctx.case.startswith("tipper"):
+            ids["Base stations"] = uuid.UUID(int=3)
+        em = {"Channels": PList([1.0, 2.0]), "Input type": "Rx", "Survey type": "Airborne TEM", "Unit": "Milliseconds (ms)", "Loop radius": 1.5}
+        em.update(ids)
+        me.attrs["metadata"] = PDict({"EM Dataset": PDict(dict(sorted(em.items())))})
+        partner = None
+        if ctx.case != "unlinked":
+            partner = Opaque("partner")
+            partner.distinct = True
+            ctx.path.assume(~partner.none_var())
+        me.attrs["complement"] = partner
+        cc = Opaque("copy_complement")
+        cc.maybe_method = lambda I, a, kw: I.event("copy-complement", new_entity=a[0], parent=kw.get("parent"))
+        me.attrs["copy_complement"] = cc
+        me.attrs["parent"] = Opaque("parent")
+        ctx.env.update(ids=ids, partner=partner, em=em)
+        return [me], {}
+
+    def post(self, ctx, result):
+        e = ctx.env
+        new = e.get("new")
+        ctx.oblige("returns-the-new-entity", new is not None and result is new)
+        forwarded = {}
+        for k, p in ctx.path.events:
+            if k == "edit-copy":
+                ent = p["entries"]
+                forwarded.update(ent.items if isinstance(ent, PDict) else dict(ent))
+        for key in e["ids"]:
+            ctx.oblige(f"the-originals-{key.replace(' ', '-')}-identifier-is-not-forwarded-to-the-copy", key not in forwarded,
+                       note=f"the copy is given the original's {key} identifier and stays linked to (or re-links) the original partner")
+        for key in ("Channels", "Input type", "Survey type", "Unit", "Loop radius"):
+            ctx.oblige(f"shared-parameter-{key.replace(' ', '-')}-reaches-the-copy", key in forwarded)
+        cc = [p for k, p in ctx.path.events if k == "copy-complement"]
+        if e["partner"] is not None:
+            ctx.oblige("the-partner-is-copied-and-linked-to-the-copy", len(cc) == 1 and cc[0]["new_entity"] is new)
+        else:
+            ctx.oblige("nothing-to-link-for-an-unlinked-survey", not cc)
+
+
+CONTRACTS = [LinkNative, EMMetadataSet, TransmittersSet, ReceiversSet, CellCopyStub, EMCopy]
